@@ -296,7 +296,7 @@ def run_merge(case):
     ]
     perms = [outcome(chain_left([(a, b, c)[i] for i in p])) for p in itertools.permutations(range(3))]
     after = [enc(a), enc(b), enc(c)]
-    return {"inputs": before, "outs": outs, "perms": perms, "mutated": before != after}
+    return {"inputs": before, "after": after, "outs": outs, "perms": perms, "mutated": before != after}
 
 
 def run(payload):
